@@ -59,8 +59,8 @@ SCENARIOS = {
         "counts": ["C02", "C01"],
     },
     "C03": {
-        "modules": ["C03", "Reachable", "C03Bq"],
-        "theorems": ["C03_by_item_eq_by_vector_bq", "C03_by_item_eq_by_vector_reachable", "C03_total_reachable", "C03_filter_exact_reachable", "C03_monotone_reachable", "C03_wellformed", "C03_total", "C03_filter_exact", "C03_default_budget", "C03_by_item_absent",
+        "modules": ["C03", "Reachable", "C03Bq", "C03Sorted"],
+        "theorems": ["C03_reported_sorted", "C03_reported_sorted_scores", "C03_by_item_eq_by_vector_bq", "C03_by_item_eq_by_vector_reachable", "C03_total_reachable", "C03_filter_exact_reachable", "C03_monotone_reachable", "C03_wellformed", "C03_total", "C03_filter_exact", "C03_default_budget", "C03_by_item_absent",
                      "C03_by_item_present", "C03_by_item_eq_by_vector", "C03_prefix", "C03_monotone", "C03_budget_le"],
         "quick": [hist("c03", 50, extra=T1)],
         "thorough": [hist("c03", 1000, "thorough", extra=T1), hist("c03", 200, "thorough")],
@@ -107,9 +107,11 @@ SCENARIOS = {
                      "C11_mul_std", "C11_add_std", "C11_fma_std", "C11_div_std", "C11_sqrt_std", "C11_cover_dot_scalar", "C11_cover_dot_sse", "C11_cover_dot_avx", "C11_cover_euclid_scalar", "C11_cover_euclid_sse",
                      "C11_cover_euclid_avx", "C11_dispatch", "C11_symm", "C11_self_zero_euclid", "C11_self_zero_manhattan",
                      "C11_cosine_range", "C11_round", "C11_round_simd"],
-        "quick": [{"name": "kernels", "args": ["kernels", "--seed", "{seed}"]}],
-        "thorough": [{"name": "kernels", "args": ["kernels", "--seed", "{seed}", "--tier", "thorough"], "timeout": 3000}],
-        "counts": ["C11"],
+        "quick": [{"name": "kernels", "args": ["kernels", "--seed", "{seed}"]}, hist("c11", 25, extra=T1)],
+        "thorough": [{"name": "kernels", "args": ["kernels", "--seed", "{seed}", "--tier", "thorough"], "timeout": 3000},
+                     hist("c11", 500, "thorough", extra=T1)],
+        # end to end: the distances a query reports (C03/C02 predicates on the answers of the c11 histories)
+        "counts": ["C11", "C03", "C02"],
         "nontrivial": "any",
         "rule": "records = one kernel or distance evaluation each (every kernel x lengths 1..300 x byte offsets x value families); each is "
                 "compared bit for bit with the soft-float kernels of the model and, for finite operands, with the exact sum within the "
@@ -118,7 +120,8 @@ SCENARIOS = {
                         "the NEON paths are not modelled (no aarch64 host)"],
     },
     "C12": {
-        "theorems": ["C12_roundtrip", "C12_padding", "C12_sign_only", "C12_hamming", "C12_hamming_symm", "C12_hamming_zero_iff",
+        "modules": ["C12", "C12Mono"],
+        "theorems": ["C12_monotone_cosine", "C12_strict_monotone_cosine", "C12_orders_neighbours_cosine", "C12_orders_neighbours_dist", "C12_roundtrip", "C12_padding", "C12_sign_only", "C12_hamming", "C12_hamming_symm", "C12_hamming_zero_iff",
                      "C12_euclid", "C12_manhattan", "C12_dot", "C12_cosine", "C12_zero", "C12_zero_cosine", "C12_depends_only_on_h",
                      "C12_symm", "C12_monotone", "C12_norm_product_exact", "C12_cosine_nonneg", "C12_old_formula_defect"],
         "quick": [{"name": "bq", "args": ["bq", "--seed", "{seed}"]}, {"name": "kernels", "args": ["kernels", "--seed", "{seed}", "--max-len", "130"]},
@@ -139,8 +142,8 @@ SCENARIOS = {
         "assumptions": ["each atomic cell is sequentially consistent in the model (Relaxed orderings beyond per-operation atomicity are not modelled)"],
     },
     "C14": {
-        "modules": ["C14", "Unconditional", "Reachable"],
-        "theorems": ["C14_any_memory_forest", "C14_any_memory", "C14_insert_terminates", "C14_makeT_fuel", "C14_resplit_makes_node", "C14_livelock_before_fix",
+        "modules": ["C14", "C14Fair", "C14FairBuild", "Unconditional", "Reachable"],
+        "theorems": ["C14_fair_round_decreases", "C14_round_above_cap_decreases", "C14_round_measure", "C14_terminates_above_cap", "C14_fair_terminates", "C14_fuel_needs_small_batch", "C14_fuel_needs_unfair_round", "C14_build_terminates_above_cap", "C14_build_terminates_fair", "C14_any_memory_forest", "C14_any_memory", "C14_insert_terminates", "C14_makeT_fuel", "C14_resplit_makes_node", "C14_livelock_before_fix",
                      "C14_build_fuel_forest", "C14_reify_total", "C14_deleteTree_total"],
         "quick": [hist("c14", 60, extra=T1, timeout=900), hist("c14inc", 12, extra=T1, timeout=900)],
         "thorough": [hist("c14", 600, "thorough", extra=T1, timeout=3400), hist("c14", 100, "thorough", timeout=3400),
@@ -164,7 +167,8 @@ SCENARIOS = {
         "counts": ["C17", "C01", "C06"],
     },
     "C18": {
-        "theorems": ["C18_same", "C18_change", "C18_f32_to_f32", "C18_to_bq", "C18_from_bq", "C18_old_metric_refused",
+        "modules": ["C18", "C18Build"],
+        "theorems": ["C18_build_after_change_reachable", "C18_build_right_after_change_reachable", "C18_needs_build_after_change", "C18_needs_build_until_built", "C18_change_keeps_reachable", "C18_routed_after_change_reachable", "C18_same", "C18_change", "C18_f32_to_f32", "C18_to_bq", "C18_from_bq", "C18_old_metric_refused",
                      "C18_old_metric_refused_after_build"],
         "quick": [hist("c18", 49, extra=T1)],
         "thorough": [hist("c18", 980, "thorough", extra=T1)],
